@@ -452,15 +452,14 @@ func (f *File) Stat() (os.FileInfo, error) {
 		f.info.size = size
 	}
 
+	// Hand out a copy: the handle keeps updating its own info (i.e. the size, on the next `Stat`) under the I/O lock,
+	// while the caller reads what it has been given without it
+	info := *f.info
 	if f.link != "" {
-		info := f.info
-
 		info.name = path.Base(f.link)
-
-		return info, nil
 	}
 
-	return f.info, nil
+	return &info, nil
 }
 
 func (f *File) Readdir(count int) ([]os.FileInfo, error) {
